@@ -49,7 +49,7 @@ func listUploads(s *drv.Server, bucket, prefix, delim string, extra ...string) (
 func runC14(c *Ctx) {
 	r := c.R
 	r.SetRule("random multipart histories (initiate/upload-part/overwrite-part/abort/complete) over keys {a/k1,a/k2,a/b/c,ab/x,b,b/y} with 1-3 uploads per key and part numbers with gaps; then ListMultipartUploads for every prefix in a list x delimiter {none,'/'} unpaginated and walked with the server's NextKeyMarker/NextUploadIdMarker for every max-uploads 1..n+1, and ListParts of every pending upload unpaginated, walked with NextPartNumberMarker for every max-parts 1..n+1, and started at arbitrary numeric part-number markers incl. beyond the highest part; mem and fs-mm; distinct = (backend, history, listing kind, prefix, delimiter, page size or marker)")
-	nh := r.Pick(400, 6000)
+	nh := r.Pick(400, 30000)
 	kinds := []string{drv.Mem, drv.FsMM}
 	r.Set("backends", kinds)
 	keyPool := []string{"a/k1", "a/k2", "a/b/c", "ab/x", "b", "b/y"}
